@@ -1268,8 +1268,10 @@ class NF:
             from .canon import Canon, known_defs
             known = known_defs()
             names = {n.attr for n in ast.walk(m) if isinstance(n, ast.Attribute)} | {n.id for n in ast.walk(m) if isinstance(n, ast.Name)}
+            imported = set(c.module.imports) | {a_.asname or a_.name for n in ast.walk(m) if isinstance(n, ast.ImportFrom) for a_ in n.names}
             unknown = [x for x in names if x.startswith("_") and not x.startswith("__") and (
                 (x in c.module.functions and f"fn:{x}" not in known) or (x in c.module.assigns and f"const:{x}" not in known)
+                or (x in imported and f"fn:{x}" not in known and f"const:{x}" not in known and f"class:{x}" not in known)
                 or (any(x in k.methods for k in c.mro) and not any(f"{k.name}.{x}" in known for k in c.mro)))]
             if not unknown:
                 return raw
